@@ -1311,6 +1311,54 @@ def r17_one_precision_per_format(idx, r):
         raise AnalysisError(f"only {n} real-valued rw sites found")
 
 
+GEODST_RECORD_OF_IGOM = {**{g: "_rw2DRecord" for g in (1, 2, 3)}, **{g: "_rw3DRecord" for g in range(6, 12)}, **{g: "_rw4DRecord" for g in range(12, 19)}}
+
+
+def r18_dispatch_tables(idx, r):
+    """(a) GEODST: the mesh record that follows the specifications is chosen by the geometry code IGOM (CCCC-IV, repeated in the method's own
+    documentation): 1-3 one-dimensional, 6-11 two-dimensional, 12-18 three-dimensional, anything else none.  The if/elif chain is evaluated
+    for every code 0..18 and compared with that table.  (b) PMATRX: the records of ONE nuclide are sized by the counts of that nuclide's own
+    heading record; a key the nuclide-level reader itself reads must not be taken from the file-level metadata."""
+    from ..minieval import MiniEval
+    f = idx.method("armi.nuclearDataIO.cccc.geodst.GeodstStream", "readWrite")
+    gv = next((s_.attr for s_ in iter_stores(f.node) if isinstance(s_.node, ast.Name) and s_.value is not None and "'IGOM'" in norm(s_.value)), None)
+    chain = next((x for x in f.node.body if isinstance(x, ast.If) and gv is not None and any(isinstance(y, ast.Name) and y.id == gv for y in ast.walk(x.test))
+                  and any(isinstance(c, ast.Call) and (dotted(c.func) or "").startswith("self._rw") for c in ast.walk(x))), None)
+    if gv is None or chain is None:
+        raise AnchorMissing("GeodstStream.readWrite: dispatch on IGOM")
+    ev = MiniEval()
+    bad = []
+    for g in range(0, 19):  # the codes the format defines (0 = point, 1-3, 6-18); 4 and 5 are not assigned
+        cur, got = chain, None
+        while cur is not None:
+            if ev._truth(ev._ev(cur.test, {gv: g})):
+                got = next((dotted(c.func).split(".")[-1] for st_ in cur.body for c in ast.walk(st_) if isinstance(c, ast.Call) and (dotted(c.func) or "").startswith("self._rw")), None)
+                break
+            cur = cur.orelse[0] if len(cur.orelse) == 1 and isinstance(cur.orelse[0], ast.If) else None
+        if got != GEODST_RECORD_OF_IGOM.get(g):
+            bad.append((g, got, GEODST_RECORD_OF_IGOM.get(g)))
+    r.require(not bad, "geodst:mesh-record-by-geometry-code", f, node=chain,
+              msg=f"geometry code {bad[0][0]} selects {bad[0][1]} but the format prescribes {bad[0][2]}: the mesh record of that geometry is neither written nor read" if bad else "")
+    n = 0
+    for m in _cccc_modules(idx):
+        for c in m.classes.values():
+            own = set()
+            for fn in c.methods.values():
+                for s_ in iter_stores(fn.node):
+                    if s_.kind == "subscript" and s_.chain == "self._metadata" and isinstance(s_.value, ast.Call) and call_attr(s_.value) in RW and isinstance(s_.node.slice, ast.Constant):
+                        own.add(s_.node.slice.value)
+            if not own:
+                continue
+            for fn in c.methods.values():
+                for x in walk_local(fn.node):
+                    if isinstance(x, ast.Subscript) and isinstance(x.ctx, ast.Load) and isinstance(x.slice, ast.Constant) and x.slice.value in own \
+                            and isinstance(x.value, ast.Attribute) and x.value.attr == "_metadata" and norm(x.value.value) != "self" and norm(x.value.value).startswith("self._"):
+                        n += 1
+                        r.violate(f"{c.name}.{fn.name}:{x.slice.value}:own-heading-count", fn, f"`{norm(x)}` takes `{x.slice.value}` from the enclosing file's metadata although {c.name} reads that key from its "
+                                  "own heading record: a nuclide whose count differs from the file-wide one is read and written with the wrong number of records", node=x)
+    r.ok("nuclide-level-counts-scanned", f)
+
+
 def run(idx, chk):
     chk.explanation = (
         "C09: static reader/writer agreement for CCCC records: struct formats, byte counters and ASCII field widths of "
@@ -1363,3 +1411,5 @@ def run(idx, chk):
                  necessary="reading what was written returns the same matrix")
     chk.run_rule("R09.17", "every real-valued field of a format is stored in that format's one precision (frozen per format)", lambda r: r17_one_precision_per_format(idx, r), floor=12,
                  necessary="a double written is the double read back")
+    chk.run_rule("R09.18", "GEODST mesh record chosen per geometry code as the format prescribes (all codes 0..18); nuclide records sized by the nuclide's own heading", lambda r: r18_dispatch_tables(idx, r), floor=2,
+                 necessary="every record the format prescribes for a file is written and read")
